@@ -6,7 +6,12 @@ Case dicts (JSON):
   {'op':'safe',    'kind':K, 'data':[...], 'map':..., 'inv':..., 'ev':None|value}
   {'op':'isafe',   'strs':[...],           'map':..., 'inv':..., 'ev':None|str}
   {'op':'mapvalid','kind':K, 'data':[...], 'map':..., 'inv':...}
-K in NUM_KINDS (small integral values) or 'S3' (data = list of ascii strings of length <= 3).
+  {'op':'hist',    'kind':K, 'data':[...], 'strs':[...], 'map':..., 'inv':..., 'steps':[[name, cs?, vf?]...], 'store':...}
+      a HISTORY of calls on ONE map field, one numeric source field and one indexed source field (coq/Model/MapHistory.v);
+      step names: stream cs | istream cs vf | mapvalid | safe | isafe | self cs (the map column mapped through itself);
+      result = [[destination of each step...], [map, numeric source, source offsets, source bytes AFTER the history]]
+K in NUM_KINDS (small integral values), 'S3' (data = list of ascii strings of length <= 3), or a bit-pattern kind
+'f64b' / 'f32b' (data = IEEE bit patterns as unsigned ints: NaNs, -0.0, infinities, denormals survive the comparison).
 A None in 'map' is the invalid marker selected by 'inv' (0: -1, 1: INVALID_INDEX_32, 2: INVALID_INDEX_64).
 The environment variable C04_VARIANT=orig makes the *model* the code as found (used once to tie the
 `…_refuted` theorems to the unrepaired tree), C04_VARIANT=fixed0 the code after the C04 fixes but before
@@ -40,11 +45,32 @@ RULE = ('exhaustive small scope: every map of length <= N whose valid entries ar
         'seeded structured random longer cases (all-invalid chunks, gaps larger than a chunk, HDF5-backed fields; '
         'unordered: saw-tooth maps of many-to-many joins, random permutations, zig-zags between the two ends of the '
         'source). '
+        'HISTORIES (coq/Model/MapHistory.v, theorem history_correct): one map field, one numeric source field and one '
+        'indexed source field shared by a sequence of calls — every map of length <= 3 (thorough 4) over sources of '
+        'length <= 3, ordered and unordered, x 3 markers x EVERY ordered pair of the six call kinds {stream, indexed '
+        'stream, map_valid, safe_map_values, safe_map_indexed_values, stream with the map column as its own source} '
+        '(thorough: every fifth triple as well), memory-backed (chunk reads are views of the field) and every 48th '
+        'HDF5-backed; the map and both sources are read back after the history and compared with what was supplied; '
+        'then random histories of 2-5 calls over longer maps. '
+        'EXTREMES: every map of length <= 3 over source values at the extremes of int64/int32/uint8 and over float bit '
+        'patterns (NaNs, -0.0, infinities, denormals; compared bit for bit); non-ASCII indexed entries (characters != '
+        'bytes) with value buffers between character count and byte count; entries of 255..512 bytes. '
+        'SCALED: chunk sizes 16..300 (powers of two and neighbours, and random) with near-1:1 maps of 1-3 chunks carrying '
+        'planted events (a repeat compensated by a skipped source row, an unmatched row in place of / inserted before a '
+        'row, skips around the chunk size, blocks, swapped pairs) for both streams, the helpers and histories; a few '
+        'chunk sizes around 1024 (thorough: 2048, 4096). '
+        'CALL FORMS: f(src, map, dst[, invalid]) with chunksize / value_factor left to the function defaults, as '
+        'DataFrame.merge calls them — defaults patched to every small size (all maps of length <= 3) and the real '
+        'defaults (2^20 rows; indexed 2^20 x 8 in the thorough tier only). '
+        'CHANGE-DIRECTED: every small integer literal that is new in the tree under test (harness/hot.py) is planted '
+        'as chunk size, map length, run length and entry byte width (K-1, K, K+1, 2K, 3K, ...). '
         'Non-trivial = the case reaches at least one planted feature other than its marker/kind tags.')
 EXHAUSTIVE = {'quick': True, 'thorough': True}
 TRUSTED = ['numba code generation; numpy slicing/fill semantics (modelled by np_slice / np_slice_fill / np_get)',
            'MemoryFieldArray / HDF5 field write, write_part (modelled as list append)',
-           'map dtype int32 for markers -1 and INVALID_INDEX_32, int64 for INVALID_INDEX_64 (and rotated for -1)']
+           'map dtype int32 for markers -1 and INVALID_INDEX_32, int64 for INVALID_INDEX_64 (and rotated for -1)',
+           'histories: the model threads the shared fields through the calls unchanged because no modelled statement '
+           'stores into a map or source argument; the correspondence run observes the real fields after each history']
 ASSUMPTIONS = ['valid map entries are in range (the property quantifies over non-decreasing maps; since fix-F-C02f the '
                'streams are correct for every order, which is what DataFrame.merge needs for many-to-many keys)',
                'chunksize >= 1, value_factor >= 1',
@@ -78,8 +104,18 @@ def _map_array(case):
     return _np.asarray([inv if k is None else k for k in case['map']], dtype=_map_dtype(case))
 
 
+BITS = {'f64b': ('uint64', 'float64'), 'f32b': ('uint32', 'float32')}
+STEP_CODE = {'stream': 1, 'istream': 2, 'mapvalid': 3, 'safe': 4, 'isafe': 5, 'self': 6}
+
+
+def _fkind(kind):
+    return BITS[kind][1] if kind in BITS else kind
+
+
 def _data_array(kind, data):
     np = _np
+    if kind in BITS:
+        return np.asarray(data, dtype=BITS[kind][0]).view(BITS[kind][1])
     if kind == 'S3':
         return np.asarray([x.encode() for x in data], dtype='S3')
     if kind == 'bool':
@@ -90,17 +126,28 @@ def _data_array(kind, data):
 def _h5_df():
     """one in-memory HDF5 dataset per worker process; a fresh dataframe per case"""
     import io
+    if 'ds' in _h5 and _h5['n'] % 16 == 0:
+        # the dataset keeps every dataframe's fields and their write buffers alive (about 0.6 MB per case, cyclic
+        # garbage once closed): start a new in-memory file every 16 HDF5-backed cases and collect
+        import gc
+        try:
+            _h5['s'].close()
+        except Exception:
+            pass
+        del _h5['ds'], _h5['s']
+        gc.collect()
     if 'ds' not in _h5:
         s = _session.Session()
         _h5['s'] = s
         _h5['ds'] = s.open_dataset(io.BytesIO(), 'w', 'ds')
-        _h5['n'] = 0
+        _h5['n'] = _h5.get('n', 0)
     _h5['n'] += 1
     return _h5['ds'].create_dataframe('df%d' % _h5['n'])
 
 
 def _num_field(df, name, kind, arr):
     fields = _fields
+    kind = _fkind(kind)
     if df is None:
         f = fields.FixedStringMemField(None, 3) if kind == 'S3' else fields.NumericMemField(None, kind)
     else:
@@ -120,27 +167,109 @@ def _idx_field(df, name, strs):
 def _canon_elems(kind, arr):
     if kind == 'S3':
         return [list(bytes(x)) for x in arr]
+    if kind in BITS:
+        arr = _np.ascontiguousarray(arr).view(BITS[kind][0])
     return [int(x) for x in arr]
+
+
+def _ints(arr):
+    return [int(x) for x in arr]
+
+
+def _run_hist(case):
+    """a history of calls on shared fields; the shared fields are read back afterwards"""
+    np, ops = _np, _ops
+    inv = _marker(case)
+    df = _h5_df() if case.get('store') == 'h5' else None
+    kind = case['kind']
+    names = set(st[0] for st in case['steps'])
+    # a shared field that no call of the history uses is not created (an indexed field costs megabytes of buffers)
+    num = _num_field(df, 'src', kind, _data_array(kind, case['data'])) if names & {'stream', 'mapvalid', 'safe'} else None
+    idx = _idx_field(df, 'isrc', case['strs']) if names & {'istream', 'isafe'} else None
+    mp = _num_field(df, 'map', _map_dtype(case), _map_array(case))
+    outs = []
+    for j, st in enumerate(case['steps']):
+        name = st[0]
+        if name == 'stream':
+            dst = _num_field(df, 'dst%d' % j, kind, None)
+            ops.ordered_map_valid_stream(num, mp, dst, inv, st[1])
+            outs.append(_canon_elems(kind, dst.data[:]))
+        elif name == 'self':
+            dst = _num_field(df, 'dst%d' % j, _map_dtype(case), None)
+            ops.ordered_map_valid_stream(mp, mp, dst, inv, st[1])
+            outs.append(_ints(dst.data[:]))
+        elif name == 'istream':
+            dst = _idx_field(df, 'dst%d' % j, None)
+            ops.ordered_map_valid_indexed_stream(idx, mp, dst, inv, st[1], st[2])
+            outs.append([_ints(dst.indices[:]), _ints(dst.values[:])])
+        elif name == 'mapvalid':
+            d = num.data[:]
+            r = ops.map_valid(d, mp.data[:], invalid=inv)
+            assert r.dtype == d.dtype
+            outs.append(_canon_elems(kind, r))
+        elif name == 'safe':
+            d, m = num.data[:], mp.data[:]
+            r = ops.safe_map_values(d, m, m != inv)
+            assert r.dtype == d.dtype and len(r) == len(m)
+            outs.append(_canon_elems(kind, r))
+        elif name == 'isafe':
+            m = mp.data[:]
+            di, dv = np.asarray(idx.indices[:]), np.asarray(idx.values[:])
+            if len(di) == 0:
+                di = np.zeros(1, dtype=np.int64)
+            i, v = ops.safe_map_indexed_values(di, dv, m, m != inv)
+            outs.append([_ints(i), _ints(v)])
+        else:
+            raise ValueError(name)
+    if idx is None:
+        fin_i, fin_v = [list(x) for x in _split(case['strs'])]
+    else:
+        fin_i, fin_v = _ints(idx.indices[:]) or [0], _ints(idx.values[:])
+    fin_n = _welems(kind, case['data']) if num is None else _canon_elems(kind, num.data[:])
+    return [outs, [_ints(mp.data[:]), fin_n, fin_i, fin_v]]
+
+
+def _call(f, fields3, inv, sizes, dflt):
+    """the call forms of the streamed mappings. DataFrame.merge calls them as f(src, map, dst, invalid): chunksize and
+    value_factor come from the function's defaults. dflt='patched': the defaults are set to the case's sizes for the
+    duration of the call and the size arguments are omitted (the hard-wired size becomes a parameter, the model takes the
+    same one); dflt='real': nothing is patched (the case records DEFAULT_CHUNKSIZE and value_factor 8); dflt='vf':
+    only value_factor is left to its (patched) default. The invalid argument is omitted as well when it is -1."""
+    if not dflt:
+        return f(*fields3, inv, *sizes)
+    saved = f.__defaults__
+    try:
+        if dflt == 'patched':
+            f.__defaults__ = (saved[0],) + tuple(sizes)
+            return f(*fields3) if inv == -1 else f(*fields3, inv)
+        if dflt == 'vf':
+            f.__defaults__ = (saved[0], saved[1], sizes[1])
+            return f(*fields3, inv, sizes[0])
+        return f(*fields3) if inv == -1 else f(*fields3, inv)
+    finally:
+        f.__defaults__ = saved
 
 
 def run(case):
     np, ops = _np, _ops
     op = case['op']
     inv = _marker(case)
+    if op == 'hist':
+        return _run_hist(case)
     if op == 'stream':
         df = _h5_df() if case.get('store') == 'h5' else None
         kind = case['kind']
         src = _num_field(df, 'src', kind, _data_array(kind, case['data']))
         mp = _num_field(df, 'map', _map_dtype(case), _map_array(case))
         dst = _num_field(df, 'dst', kind, None)
-        ops.ordered_map_valid_stream(src, mp, dst, inv, case['cs'])
+        _call(ops.ordered_map_valid_stream, (src, mp, dst), inv, (case['cs'],), case.get('dflt'))
         return _canon_elems(kind, dst.data[:])
     if op == 'istream':
         df = _h5_df() if case.get('store') == 'h5' else None
         src = _idx_field(df, 'src', case['strs'])
         mp = _num_field(df, 'map', _map_dtype(case), _map_array(case))
         dst = _idx_field(df, 'dst', None)
-        ops.ordered_map_valid_indexed_stream(src, mp, dst, inv, case['cs'], case['vf'])
+        _call(ops.ordered_map_valid_indexed_stream, (src, mp, dst), inv, (case['cs'], case['vf']), case.get('dflt'))
         return [[int(x) for x in dst.indices[:]], [int(x) for x in dst.values[:]]]
     m = _map_array(case)
     flt = m != inv
@@ -149,7 +278,7 @@ def run(case):
         d = _data_array(kind, case['data'])
         ev = case['ev']
         if ev is not None:
-            ev = d.dtype.type(ev.encode() if kind == 'S3' else ev)
+            ev = d.dtype.type(ev.encode() if kind == 'S3' else ev)     # (never given for the bit-pattern kinds)
         r = ops.safe_map_values(d, m, flt, ev) if ev is not None else ops.safe_map_values(d, m, flt)
         assert r.dtype == d.dtype and len(r) == len(m)
         return _canon_elems(kind, r)
@@ -198,6 +327,8 @@ def _warmup(run):
         run({'op': 'istream', 'strs': ['a', 'bb'], 'map': [0, None, 1], 'inv': inv, 'cs': 2, 'vf': 2, 'mdt': mdt})
         for ev in (None, 'x'):
             run({'op': 'isafe', 'strs': ['a', 'bb'], 'map': [0, None, 1], 'inv': inv, 'ev': ev, 'mdt': mdt})
+        run({'op': 'hist', 'kind': 'int32', 'data': [1, 0, 2], 'strs': ['a', 'bb', ''], 'map': [0, None, 1], 'inv': inv,
+             'mdt': mdt, 'steps': [['stream', 2], ['istream', 2, 2], ['mapvalid'], ['safe'], ['isafe'], ['self', 2]]})
 
 
 # ------------------------------------------------------------------ wire
@@ -240,6 +371,10 @@ def to_val(case):
     if op == 'mapvalid':
         k = case['kind']
         return head(8 if k == 'S3' else 7) + [_welems(k, case['data'])]
+    if op == 'hist':
+        idx, val = _split(case['strs'])
+        steps = [[STEP_CODE[st[0]], st[1] if len(st) > 1 else 1, st[2] if len(st) > 2 else 1] for st in case['steps']]
+        return head(9) + [_welems(case['kind'], case['data']), idx, val, steps]
     raise ValueError(op)
 
 
@@ -248,15 +383,35 @@ def _derr(v):
     return core.decode_err(v)
 
 
+def _bl(s):
+    return len(s.encode())
+
+
 def mapped_too_long(case):
     """indexed streaming outside the property's regime: a mapped entry exceeds the value buffer"""
-    if case['op'] != 'istream':
+    if case['op'] == 'hist':
+        bs = [st[1] * st[2] for st in case['steps'] if st[0] == 'istream']
+        if not bs:
+            return False
+        b = min(bs)
+    elif case['op'] != 'istream':
         return False
-    b = case['cs'] * case['vf']
-    return any(k is not None and 0 <= k < len(case['strs']) and len(case['strs'][k]) > b for k in case['map'])
+    else:
+        b = case['cs'] * case['vf']
+    return any(k is not None and 0 <= k < len(case['strs']) and _bl(case['strs'][k]) > b for k in case['map'])
 
 
 def in_range(case):
+    if case['op'] == 'hist':
+        names = set(st[0] for st in case['steps'])
+        n = 1 << 62
+        if names & {'stream', 'mapvalid', 'safe'}:
+            n = min(n, len(case['data']))
+        if names & {'istream', 'isafe'}:
+            n = min(n, len(case['strs']))
+        if 'self' in names:
+            n = min(n, len(case['map']))
+        return all(k is None or 0 <= k < n for k in case['map'])
     n = len(case['strs']) if 'strs' in case else len(case['data'])
     return all(k is None or 0 <= k < n for k in case['map'])
 
@@ -273,6 +428,8 @@ def in_precondition(case):
         return False
     if VARIANT and case['op'] in ('stream', 'istream') and not ordered(case):
         return False
+    if case['op'] == 'hist':
+        return all(x >= 1 for st in case['steps'] for x in st[1:])
     return case.get('cs', 1) >= 1 and case.get('vf', 1) >= 1
 
 
@@ -307,6 +464,8 @@ def features(case, model):
         f.append('kind:' + case['kind'])
     if case.get('store') == 'h5':
         f.append('hdf5-backed')
+    if case.get('dflt'):
+        f.append('size arguments omitted (defaults: %s)' % case['dflt'])
     if isinstance(model, str):
         f.append('model:' + model.split(':')[0] + (':' + model.split(':')[1] if model.startswith('EXC') else ''))
     if not m:
@@ -355,26 +514,68 @@ def features(case, model):
     if op == 'istream':
         b = case['cs'] * case['vf']
         strs = case['strs']
-        ml = [len(strs[k]) for k in valid if 0 <= k < len(strs)]
+        ml = [_bl(strs[k]) for k in valid if 0 <= k < len(strs)]
+        if any(_bl(x) != len(x) for x in strs):
+            f.append('non-ASCII entries (characters != bytes)')
+        if any(x >= 256 for x in ml):
+            f.append('mapped-entry>=256-bytes')
         if any(x == 0 for x in ml):
             f.append('mapped-entry-empty')
         if any(x == b for x in ml):
             f.append('mapped-entry==buffer')
         if any(x > b for x in ml):
             f.append('mapped-entry>buffer (error regime)')
-        elif any(len(s) > b for s in strs):
+        elif any(_bl(s) > b for s in strs):
             f.append('unmapped-entry>buffer')
         cs = case['cs']
         for i in range(0, len(m), cs):
             c = [k for k in m[i:i + cs] if k is not None and 0 <= k < len(strs)]
-            if c and sum(len(strs[k]) for k in c) > b:
+            if c and sum(_bl(strs[k]) for k in c) > b:
                 f.append('value-buffer-fills-mid-chunk')
                 break
         for i in range(0, len(m), cs):
             c = [k for k in m[i:i + cs] if k is not None and 0 <= k < len(strs)]
-            if c and sum(len(s) for s in strs[c[0]:c[-1] + 1]) > b and c[-1] > c[0]:
+            if c and sum(_bl(s) for s in strs[c[0]:c[-1] + 1]) > b and c[-1] > c[0]:
                 f.append('value-window-decomposed')
                 break
+    if op == 'hist':
+        names = [st[0] for st in case['steps']]
+        f.append('history-of-%s-calls' % (len(names) if len(names) < 4 else '4+'))
+        for a, b in zip(names, names[1:]):
+            f.append('hist:%s->%s' % (a, b))
+        if case.get('store') != 'h5':
+            f.append('hist:memory-backed-shared-map (chunk reads are views)')
+        if case['inv'] != 0 and len(names) >= 2:
+            f.append('hist:sentinel-marked-map-used-again')
+        if 'self' in names:
+            f.append('source-aliases-map')
+        if mapped_too_long(case):
+            f.append('mapped-entry>buffer (error regime)')
+        css = [st[1] for st in case['steps'] if len(st) > 1]
+    else:
+        css = [case['cs']] if 'cs' in case else []
+    if case.get('kind') in BITS:
+        f.append('bit-pattern-floats (NaN, -0.0, inf, denormal)')
+    if 'data' in case and case.get('kind') not in BITS and case.get('kind') != 'S3' and \
+            any(isinstance(x, int) and abs(x) >= (1 << 31) - 1 for x in case['data']):
+        f.append('source-values-at-dtype-extremes')
+    if css and max(css) >= 16:
+        f.append('chunk-size>=16 (beyond the exhaustive scope)')
+        cs = max(css)
+        for i in range(0, len(m), cs):
+            c = m[i:i + cs]
+            cv = [k for k in c if k is not None]
+            if len(c) >= 16 and c[0] is not None and c[-1] is not None and max(cv) - min(cv) + 1 == len(c) and \
+                    c != list(range(c[0], c[0] + len(c))):
+                f.append('count-balanced non-1:1 chunk (window rows == entries, ends valid)')
+                break
+        for i in range(0, len(m), cs):
+            c = m[i:i + cs]
+            if len(c) >= 16 and c == list(range(c[0] or 0, (c[0] or 0) + len(c))) and c[0] is not None:
+                f.append('pure 1:1 chunk')
+                break
+    elif op in ('safe', 'mapvalid', 'isafe') and len(m) >= 16:
+        f.append('map-length>=16 (beyond the exhaustive scope)')
     if op in ('safe', 'isafe') and case['ev'] is not None:
         f.append('explicit-empty-value')
     if not in_precondition(case):
@@ -399,7 +600,7 @@ def features(case, model):
             cs = case['cs']
             for i in range(0, len(m), cs):
                 cv = [k for k in m[i:i + cs] if k is not None and 0 <= k < len(strs)]
-                if cv and sum(len(s) for s in strs[min(cv):max(cv) + 1]) > b and \
+                if cv and sum(_bl(s) for s in strs[min(cv):max(cv) + 1]) > b and \
                         any(y < x for x, y in zip(cv, cv[1:])):
                     f.append('value-sub-chunk-revisited-backwards')
                     break
@@ -488,6 +689,13 @@ def gen(tier, rng):
 
 def _gen(tier, rng):
     big = tier == 'thorough'
+    if os.environ.get('C04_NEW'):       # development aid: only the generators added by the strengthening round
+        yield from _gen_histories(big, rng)
+        yield from _gen_defaults(big, rng)
+        yield from _gen_extremes(big, rng)
+        yield from _gen_text(big, rng)
+        yield from _gen_scaled(big, rng)
+        return
     N, L = (6, 5) if big else (5, 4)
     other_kinds = ['int64', 'uint8', 'float32', 'float64', 'bool', 'S3']
     rot = 0
@@ -599,6 +807,327 @@ def _gen(tier, rng):
             yield {'op': 'istream', 'strs': _strs([x for x in lens]), 'map': m, 'inv': inv, 'cs': cs, 'vf': vf,
                    'store': store}
     yield from _gen_unordered_random(big, rng)
+    if os.environ.get('C04_BASE'):      # development aid: the generators as they were before the strengthening round
+        return
+    yield from _gen_histories(big, rng)
+    yield from _gen_defaults(big, rng)
+    yield from _gen_extremes(big, rng)
+    yield from _gen_text(big, rng)
+    yield from _gen_scaled(big, rng)
+
+
+# ---- histories of calls on the same fields (coq/Model/MapHistory.v) -------------------------------------
+STEP_NAMES = ['stream', 'istream', 'mapvalid', 'safe', 'isafe', 'self']
+
+
+def _mk_steps(names, cs, vf, rot):
+    out = []
+    for j, nm in enumerate(names):
+        c = 1 + (cs + j * (rot % 3)) % 6 if j else cs
+        if nm in ('stream', 'self'):
+            out.append([nm, c])
+        elif nm == 'istream':
+            out.append([nm, c, max(vf, -(-2 // c))])          # buffer >= 2 bytes: every entry of the pattern fits
+        else:
+            out.append([nm])
+    return out
+
+
+def _self_ok(m):
+    return all(k is None or k < len(m) for k in m)
+
+
+def _gen_histories(big, rng):
+    """exhaustive: every map of length <= Nh over sources of length <= Lh x 3 markers x EVERY ordered pair of the six
+    call kinds (thorough: every triple as well) on one map field / one numeric source / one indexed source;
+    then random longer histories (2-5 calls) over longer maps"""
+    Nh, Lh = (4, 3) if big else (3, 3)
+    lens = [1, 0, 2, 1]
+    rot = 0
+    seqs = [list(t) for t in itertools.product(STEP_NAMES, repeat=2)]
+    if big:
+        seqs += [list(t) for t in itertools.product(STEP_NAMES, repeat=3)]
+    for Ls in range(1, Lh + 1):
+        for n in range(1, Nh + 1):
+            maps = list(all_maps(n, Ls))
+            if n <= 3:
+                maps += list(all_maps_any(n, Ls))
+            for m in maps:
+                if Ls < Lh and Ls - 1 not in m:
+                    continue
+                for inv in (0, 1, 2):
+                    for names in seqs:
+                        if 'self' in names and not _self_ok(m):
+                            continue
+                        rot += 1
+                        if len(names) == 3 and rot % 5:
+                            continue
+                        cs = 1 + rot % (n + 1)
+                        c = {'op': 'hist', 'kind': (['int32'] * 3 + NUM_KINDS)[rot % 9], 'map': m, 'inv': inv,
+                             'strs': _strs(lens[:Ls]), 'steps': _mk_steps(names, cs, 1 + rot % 2, rot),
+                             'store': 'h5' if rot % 48 == 0 else 'mem'}
+                        c['data'] = _data(c['kind'], Ls)
+                        if inv == 0 and rot % 2:
+                            c['mdt'] = 'int64'
+                        yield c
+    for k in range(3000 if big else 700):
+        Ls = rng.randint(1, 30)
+        cs = rng.choice([1, 2, 3, 4, 5, 8])
+        n = rng.randint(1, 30)
+        if k % 3 == 0:
+            m = [None if rng.random() < 0.3 else rng.randrange(Ls) for _ in range(n)]
+        else:
+            m, cur = [], 0
+            for _ in range(n):
+                if rng.random() < 0.3:
+                    m.append(None)
+                else:
+                    cur = min(Ls - 1, cur + rng.choice([0, 1, 1, 2, cs]))
+                    m.append(cur)
+        names = [rng.choice(STEP_NAMES) for _ in range(rng.randint(2, 5))]
+        names = [nm for nm in names if nm != 'self' or _self_ok(m)] or ['stream', 'mapvalid']
+        steps = []
+        for nm in names:
+            c = rng.choice([1, 2, 3, 4, 5, 8, cs, cs])
+            steps.append([nm, c] if nm in ('stream', 'self') else [nm, c, rng.choice([1, 2, 3, 8])] if nm == 'istream' else [nm])
+        bmin = min([st[1] * st[2] for st in steps if st[0] == 'istream'] or [4])
+        strs = _strs([rng.choice([0, 1, 2, bmin, bmin, rng.randint(0, bmin)]) for _ in range(Ls)])
+        kind = rng.choice(NUM_KINDS)
+        data = [rng.randint(0, 1) for _ in range(Ls)] if kind == 'bool' else [rng.randint(0, 100) for _ in range(Ls)]
+        yield {'op': 'hist', 'kind': kind, 'data': data, 'strs': strs, 'map': m, 'inv': rng.randint(0, 2),
+               'steps': steps, 'store': 'h5' if k % 10 == 0 else 'mem'}
+
+
+# ---- the call form production uses: f(src, map, dst, invalid) with chunksize / value_factor left to their defaults ------
+DEFAULT_CS = 1 << 20
+
+
+def _gen_defaults(big, rng):
+    rot = 0
+    for n in range(0, 4):
+        for m in all_maps(n, 3):
+            for cs in range(1, n + 2):
+                rot += 1
+                inv = rot % 3
+                kind = (['int32'] * 2 + NUM_KINDS + ['S3'])[rot % 9]
+                yield {'op': 'stream', 'kind': kind, 'data': _data(kind, 3), 'map': m, 'inv': inv, 'cs': cs, 'dflt': 'patched'}
+                vf = 1 + rot % 3
+                p = str_patterns(3, cs * vf)
+                yield {'op': 'istream', 'strs': _strs(p[rot % len(p)]), 'map': m, 'inv': (inv + 1) % 3, 'cs': cs, 'vf': vf,
+                       'dflt': 'patched' if rot % 2 else 'vf'}
+    for k in range(24 if big else 8):          # the real defaults (a 2^20-row buffer: the model takes the same size)
+        Ls = rng.randint(1, 12)
+        m = [None if rng.random() < 0.3 else rng.randrange(Ls) for _ in range(rng.randint(0, 16))]
+        kind = (['int32'] + NUM_KINDS + ['S3'])[k % 8]
+        yield {'op': 'stream', 'kind': kind, 'data': _vals(kind, Ls), 'map': m, 'inv': k % 3, 'cs': DEFAULT_CS, 'dflt': 'real',
+               'store': 'h5' if k % 4 == 3 else 'mem'}
+    if big:
+        for k in range(2):                      # indexed: 2^20 offsets and 2^23 bytes of buffer (slow in the model)
+            yield {'op': 'istream', 'strs': ['a', '', 'ccc', 'dd'], 'map': [[0, None, 3, 2, 2], [None, 1, 0]][k], 'inv': 1 + k,
+                   'cs': DEFAULT_CS, 'vf': 8, 'dflt': 'real'}
+
+
+# ---- source values at the extremes of their type ----------------------------------------------------------
+EXTREME = {
+    'int64': [(1 << 63) - 1, -(1 << 63), (1 << 53) + 1, -(1 << 53) - 1, 1 << 62, -1, 0, (1 << 31) - 1],
+    'int32': [(1 << 31) - 1, -(1 << 31), -1, 0, 1 << 30, 65536, -2, 1],
+    'uint8': [255, 0, 128, 127, 1, 254, 48, 2],
+    'f64b': [0x7ff8000000000000, 0x8000000000000000, 0x7ff0000000000000, 0xfff0000000000000, 1, 0x7fefffffffffffff,
+             0x3ff0000000000000, 0xfff8000000000001],
+    'f32b': [0x7fc00000, 0x80000000, 0x7f800000, 0xff800000, 1, 0x7f7fffff, 0x3f800000, 0xffc00001],
+}
+
+
+def _gen_extremes(big, rng):
+    """every map of length <= 3 over 3 extreme source values per kind, plus random longer ones"""
+    rot = 0
+    for kind, pool in EXTREME.items():
+        for off in range(0, len(pool) - 2, 2 if not big else 1):
+            data = pool[off:off + 3]
+            for n in range(1, 4):
+                for m in all_maps(n, 3):
+                    rot += 1
+                    inv = rot % 3
+                    yield {'op': 'stream', 'kind': kind, 'data': data, 'map': m, 'inv': inv, 'cs': 1 + rot % 3}
+                    if rot % 2:
+                        yield {'op': 'mapvalid', 'kind': kind, 'data': data, 'map': m, 'inv': inv}
+                    else:
+                        yield {'op': 'safe', 'kind': kind, 'data': data, 'map': m, 'inv': inv, 'ev': None}
+        for k in range(300 if big else 60):
+            Ls = rng.randint(1, 20)
+            data = [rng.choice(pool) for _ in range(Ls)]
+            m = [None if rng.random() < 0.3 else rng.randrange(Ls) for _ in range(rng.randint(1, 24))]
+            yield {'op': 'stream', 'kind': kind, 'data': data, 'map': m, 'inv': rng.randint(0, 2),
+                   'cs': rng.choice([1, 2, 3, 5, 8]), 'store': 'h5' if k % 10 == 0 else 'mem'}
+
+
+NONASCII = ['\u00e9', '\u20aca', '\U0001d11e', '', 'a\u00e9\u20ac', 'z']      # 2, 4, 4, 0, 6, 1 bytes; 1, 2, 1, 0, 3, 1 characters
+
+
+def _gen_text(big, rng):
+    """indexed sources whose entries are non-ASCII (characters != bytes) with value buffers between the longest entry's
+    character count and its byte count; entries of 255 / 256 / 257 / 300 bytes (offsets beyond one byte)"""
+    rot = 0
+    for n in range(1, 4):
+        for m in all_maps(n, 3):
+            for off in range(0, 4):
+                strs = NONASCII[off:off + 3]
+                mb = max([_bl(strs[k]) for k in m if k is not None] or [1])
+                mc = max([len(strs[k]) for k in m if k is not None] or [1])
+                for b in sorted(set([max(1, mc), max(1, mb - 1), max(1, mb), mb + 1, 2 * mb])):
+                    rot += 1
+                    cs = 1 + rot % 3
+                    vf = -(-b // cs)
+                    if cs * vf != b and not (mb <= cs * vf):
+                        continue
+                    yield {'op': 'istream', 'strs': strs, 'map': m, 'inv': rot % 3, 'cs': cs, 'vf': vf}
+                    if rot % 4 == 0:
+                        yield {'op': 'isafe', 'strs': strs, 'map': m, 'inv': rot % 3, 'ev': None if rot % 8 else '\u00e9'}
+                    if rot % 5 == 0:
+                        yield {'op': 'hist', 'kind': 'int32', 'data': [1, 2, 3], 'strs': strs, 'map': m, 'inv': rot % 3,
+                               'steps': [['istream', cs, vf], ['isafe'], ['istream', cs + 1, vf]], 'store': 'mem'}
+    for k in range(400 if big else 80):
+        Ls = rng.randint(1, 6)
+        lens = [rng.choice([0, 1, 255, 256, 257, 300, 511, 512]) for _ in range(Ls)]
+        m = [None if rng.random() < 0.25 else rng.randrange(Ls) for _ in range(rng.randint(1, 8))]
+        cs = rng.choice([1, 2, 3, 4, 8, 16, 64, 256])
+        need = max(lens)
+        vf = max(1, -(-rng.choice([need, need, 256, 257, 512, need + 1]) // cs))
+        yield {'op': 'istream', 'strs': _strs(lens), 'map': m, 'inv': rng.randint(0, 2), 'cs': cs, 'vf': vf,
+               'store': 'h5' if k % 10 == 0 else 'mem'}
+        if k % 3 == 0:
+            yield {'op': 'isafe', 'strs': _strs(lens), 'map': m, 'inv': rng.randint(0, 2), 'ev': None}
+
+
+# ---- scaled cases: chunk sizes / run lengths of tens to hundreds (beyond the exhaustive scope) -------------
+def _vals(kind, L):
+    """source values in which neighbouring rows differ (a row shifted by one shows)"""
+    if kind == 'S3':
+        return ['%c%c' % (97 + k % 26, 97 + (k // 26) % 26) for k in range(L)]
+    if kind == 'bool':
+        return [(k * 5 // 3) % 2 for k in range(L)]
+    return [(k * 37 + 11) % 251 for k in range(L)]
+
+
+def near_identity_map(rng, n, cs, unordered_ok=True):
+    """a long, almost 1:1 map (what a join on sorted, nearly unique keys produces) with a few planted events:
+    a repeat compensated by a skipped source row ([.., 40, 40, 42, ..]), an unmatched row in place of a row
+    (compensated) or inserted (not), a skip, a block of equal entries followed by a jump, a swapped pair.
+    Compensated events keep first entry, last entry and entry count equal to those of the pure 1:1 run."""
+    m = list(range(rng.choice([0, 0, 1, 3]), 0 + n + 3))[:n]
+    ev = rng.choice([0, 1, 1, 1, 2, 2, 3, 4])
+    spots = [0, 1, n - 1, n - 2, cs - 1, cs, cs + 1, cs // 2, 2 * cs - 1, 2 * cs, n // 2]
+    for _ in range(ev):
+        i = rng.choice(spots) if rng.random() < 0.4 else rng.randrange(max(1, n))
+        if not (0 <= i < len(m)) or not m:
+            continue
+        kind = rng.choice(['rep-skip', 'rep-skip', 'fwd-rep', 'inv-inplace', 'inv-inplace', 'inv-insert', 'rep-insert',
+                           'skip', 'block', 'swap', 'inv-run'])
+        if kind == 'rep-skip' and i > 0 and m[i - 1] is not None:
+            m[i] = m[i - 1]
+        elif kind == 'fwd-rep' and i + 1 < len(m) and m[i + 1] is not None:
+            m[i] = m[i + 1]                  # with a rep-skip elsewhere the SUM of the entries is that of the 1:1 run too
+        elif kind == 'inv-inplace':
+            m[i] = None
+        elif kind == 'inv-insert':
+            m.insert(i, None)
+        elif kind == 'rep-insert' and m[i] is not None:
+            m.insert(i, m[i])
+        elif kind == 'skip':
+            d = rng.choice([1, 1, 2, cs - 1, cs, cs + 1])
+            m = m[:i] + [None if k is None else k + d for k in m[i:]]
+        elif kind == 'block' and m[i] is not None:
+            w = rng.choice([2, 3, 5])
+            for j in range(i, min(len(m), i + w)):
+                if m[j] is not None:
+                    m[j] = m[i]
+        elif kind == 'swap' and unordered_ok and i + 1 < len(m):
+            m[i], m[i + 1] = m[i + 1], m[i]
+        elif kind == 'inv-run':
+            w = rng.choice([2, cs - 1, cs, cs + 1])
+            for j in range(i, min(len(m), i + w)):
+                m[j] = None
+    return m[:max(n, 1)] if rng.random() < 0.7 else m
+
+
+def _scaled_case(rng, cs, n, sel, hot_k=None):
+    m = near_identity_map(rng, n, cs)
+    valid = [k for k in m if k is not None]
+    Ls = (max(valid) + 1 if valid else 1) + rng.choice([0, 0, 1, 7])
+    inv = rng.randint(0, 2)
+    store = 'h5' if rng.random() < 0.04 else 'mem'
+    kinds = ['int32', 'int32', 'int64', 'uint8', 'float32', 'float64', 'bool', 'S3']
+    if sel == 'stream':
+        kind = rng.choice(kinds)
+        return {'op': 'stream', 'kind': kind, 'data': _vals(kind, Ls), 'map': m, 'inv': inv, 'cs': cs, 'store': store}
+    if sel == 'istream':
+        vf = rng.choice([1, 1, 2, 3])
+        if cs >= 1000:
+            vf = 1
+        b = cs * vf
+        w = [0, 1, 1, 2, 3] + ([hot_k - 1, hot_k, hot_k + 1] if hot_k and hot_k + 1 <= b and hot_k <= 300 else [])
+        lens = [rng.choice(w) for _ in range(Ls)]
+        if rng.random() < 0.25:
+            lens = [rng.choice([1, 2, 3])] * Ls          # all entries equally long (a fixed-width column in disguise)
+        if rng.random() < 0.3:
+            lens[rng.randrange(Ls)] = b
+        return {'op': 'istream', 'strs': _strs(lens), 'map': m, 'inv': inv, 'cs': cs, 'vf': vf, 'store': store}
+    if sel == 'helper':
+        kind = rng.choice(kinds)
+        r = rng.random()
+        if r < 0.4:
+            return {'op': 'mapvalid', 'kind': kind, 'data': _vals(kind, Ls), 'map': m, 'inv': inv}
+        if r < 0.8:
+            return {'op': 'safe', 'kind': kind, 'data': _vals(kind, Ls), 'map': m, 'inv': inv, 'ev': None}
+        return {'op': 'isafe', 'strs': _strs([rng.choice([0, 1, 2, 3]) for _ in range(Ls)]), 'map': m, 'inv': inv,
+                'ev': None if rng.random() < 0.5 else 'xy'}
+    # history at scale
+    names = [rng.choice(STEP_NAMES) for _ in range(rng.randint(2, 3))]
+    names = [nm for nm in names if nm != 'self' or _self_ok(m)] or ['stream', 'safe']
+    steps = [[nm, rng.choice([cs, cs, cs + 1, max(1, cs - 1), 2 * cs])] if nm in ('stream', 'self') else
+             [nm, cs, rng.choice([1, 2, 3])] if nm == 'istream' else [nm] for nm in names]
+    kind = rng.choice(NUM_KINDS)
+    return {'op': 'hist', 'kind': kind, 'data': _vals(kind, Ls), 'strs': _strs([rng.choice([0, 1, 1, 2, 3]) for _ in range(Ls)]),
+            'map': m, 'inv': inv, 'steps': steps, 'store': store}
+
+
+SCALED_CS = [16, 17, 31, 32, 33, 48, 63, 64, 65, 100, 127, 128, 129, 200, 255, 256, 257]
+
+
+def _gen_scaled(big, rng):
+    """chunk sizes of tens to hundreds (powers of two and their neighbours, and random ones) with map lengths around
+    1, 2 and 3 chunks; then the change-directed part: every small integer literal that is NEW in the tree under test
+    (harness/hot.py) is planted as chunk size, map length, run length and entry byte width (K-1, K, K+1, 2K, ...)"""
+    from harness import hot
+    mult = 2 if hot.changed() else 1
+    plan = [('stream', 5000 if big else 1500), ('istream', 2000 if big else 600), ('helper', 1000 if big else 400),
+            ('hist', 1000 if big else 400)]
+    for sel, cnt in plan:
+        for _ in range(cnt * mult):
+            cs = rng.choice(SCALED_CS) if rng.random() < 0.7 else rng.randint(16, 300)
+            n = rng.choice([cs - 1, cs, cs + 1, 2 * cs, 2 * cs + 1, rng.randint(cs // 2, 3 * cs + 2), 3 * cs])
+            if sel in ('istream', 'hist') and cs > 130:
+                n = min(n, cs + 1)
+            yield _scaled_case(rng, cs, n, sel)
+    # a few chunk sizes in the thousands (the model is quadratic there: seconds per case)
+    for cs in ([1000, 1023, 1024, 1025] + ([2048, 4095, 4096, 4097] if big else [])):
+        for sel in ('stream', 'stream', 'istream', 'helper'):
+            for n in ((cs - 1, cs, cs + 1, 2 * cs) if big or cs == 1024 else (cs + 1,)):
+                if cs > 1025 and sel == 'istream' and n > cs + 1:
+                    continue
+                yield _scaled_case(rng, cs, n, sel)
+    for K in hot.hot_sizes():
+        small = K <= 300
+        for sel, cnt in [('stream', 1400), ('istream', 500), ('helper', 400), ('hist', 300)]:
+            cnt = cnt * (3 if big else 1)
+            if not small:
+                if sel in ('istream', 'hist'):
+                    continue
+                cnt = max(20, cnt * 300 // (K * 4))
+            for _ in range(cnt):
+                cs = max(1, rng.choice([K - 1, K, K + 1, 2 * K, 2 * K + 1, 3 * K, max(2, K // 2), K + K // 2]))
+                n = max(1, rng.choice([K - 1, K, K + 1, 2 * K, cs - 1, cs, cs + 1, 2 * cs, cs + K, rng.randint(1, 2 * cs + 2)]))
+                yield _scaled_case(rng, cs, n, sel, hot_k=K)
 
 
 def _gen_unordered_random(big, rng):
@@ -645,6 +1174,19 @@ def _strs(lens):  # noqa: F811  (letters wrap for long sources)
 
 def shrink(case):
     m = case['map']
+    if case['op'] == 'hist':
+        st = case['steps']
+        for i in range(len(st)):
+            if len(st) > 1:
+                c = dict(case); c['steps'] = st[:i] + st[i + 1:]; yield c
+        for i in range(len(st)):
+            for j in (1, 2):
+                if len(st[i]) > j and st[i][j] > 1:
+                    c = dict(case); c['steps'] = [list(x) for x in st]; c['steps'][i][j] = st[i][j] // 2 if j == 1 else st[i][j] - 1
+                    yield c
+    if len(m) > 24:
+        for a, b in ((0, len(m) // 2), (len(m) // 2, len(m)), (0, len(m) // 4), (len(m) - len(m) // 4, len(m))):
+            c = dict(case); c['map'] = m[:a] + m[b:]; yield c
     for i in range(len(m)):
         c = dict(case)
         c['map'] = m[:i] + m[i + 1:]
@@ -654,11 +1196,11 @@ def shrink(case):
             c = dict(case); c['cs'] = cs; yield c
     if case['op'] == 'istream' and case['vf'] > 1:
         c = dict(case); c['vf'] = case['vf'] - 1; yield c
-    key = 'strs' if 'strs' in case else 'data'
-    d = case[key]
     used = [k for k in m if k is not None]
-    if d and (not used or max(used) < len(d) - 1):
-        c = dict(case); c[key] = d[:-1]; yield c
+    for key in ('strs', 'data'):
+        d = case.get(key)
+        if d and (not used or max(used) < len(d) - 1):
+            c = dict(case); c[key] = d[:-1]; yield c
     if case.get('store') == 'h5':
         c = dict(case); c['store'] = 'mem'; yield c
 
